@@ -228,7 +228,4 @@ AfterBeforeWalk ==
        LET pos == PosOf(AllSorted, h) IN
        /\ SearchHits(seen, KeyRq("after", k, h), HeapThreshold)  = Page(AllSorted, pos, k)
        /\ SearchHits(seen, KeyRq("before", k, h), HeapThreshold) = SubSeq(AllSorted, Max2(1, pos - k), pos - 1)
-
-\* used by simulation configs only: never violated, keeps TLC generating
-StateConstraint == TRUE
 =============================================================================
